@@ -615,14 +615,14 @@ func sortedKeysOf(m map[string]bool) []string {
 func init() {
 	RegisterRapid("C03_search_generated",
 		"rapid: (n <= 7 quick / 8 thorough, split modulus m in {1,2,3,4,5,7,64}, hereditary predicate from a DSL: none, max degree <= d, K_r-free, <= c edges, induced-H-free for a generated H on 2..4 vertices, forest, bipartite, and/or of two; placed as prune, as preprune, or split over both). All m shards are run to exhaustion. Oracle: the oracle's own class list for n filtered by the predicate, keyed by the oracle canonical form. Every yielded value must be a well-formed DenseGraph on n vertices; the union over shards must contain no two isomorphic graphs, nothing that fails the predicate, and every class that satisfies it. The callbacks also check every graph they are shown. Non-trivial: n >= 4 and (m >= 2 or a real predicate).",
-		Budget{Checks: 400, Shards: 1}, Budget{Checks: 500, Shards: 8},
+		Budget{Checks: 400, Shards: 1}, Budget{Checks: 1200, Shards: 16},
 		func(t *rapid.T) searchCfg { return genSearchCfg(t, sz(7, 8)) }, checkSearchCfg)
 	RegisterEnum("C03_search_configurations",
 		"enumeration: every (n <= 6 quick / 8 thorough) x (m <= 3 / 4) x {none, maxdeg<=2, maxdeg<=3, triangle-free, K4-free, <=6 edges, forest, bipartite, triangle-free and maxdeg<=3, forest or <=4 edges} x {prune, preprune, split}; thorough adds All(9) and triangle-free n=9 m=3. Same checks as C03_search_generated.",
 		true, Budget{Shards: 1}, Budget{Shards: 8}, enumSearchCfgs, checkSearchCfg)
 	RegisterRapid("C04_save_load_scripts",
 		"rapid: a search configuration (n <= 6/7, m <= 3, shard a, DSL predicate) and a script over up to 5 live iterators: Next x k (k up to 2000, so exhaustion is reached), Save(iterator) -> blob, Load(blob) -> new iterator, including chains save-load-advance-save. Oracle: the uninterrupted output sequence (graph, M, Degrees as text). Every Next of every iterator must return the reference graph at that iterator's position; at the end all iterators are drained round-robin to exactly the reference suffix, exhausted iterators stay exhausted, and every blob is loaded once more and must still resume correctly (so a blob shares nothing with live iterators). Non-trivial: a save strictly inside the run with n >= 4.",
-		Budget{Checks: 600, Shards: 1}, Budget{Checks: 2000, Shards: 8}, genSaveLoadCase, checkSaveLoadCase)
+		Budget{Checks: 600, Shards: 1}, Budget{Checks: 8000, Shards: 16}, genSaveLoadCase, checkSaveLoadCase)
 	RegisterEnum("C04_save_at_every_position",
 		"enumeration: for every (n <= 5 quick / 6 thorough, m <= 3, a < m, predicate none / triangle-free) Save is called at EVERY position k = 0..len(output)+1 (before the first Next, after each graph, after exhaustion); the loaded iterator must yield exactly the remaining graphs and the original must continue undisturbed. Complete over save positions for those configurations.",
 		true, Budget{Shards: 1}, Budget{Shards: 8}, enumSaveEvery, checkSaveEveryPosition)
